@@ -1,8 +1,10 @@
 //! Supplementary pass: the same kind of concurrent scenario under Miri's seeded scheduler, which
 //! pre-empts at basic-block granularity and reports data races. It covers the blind spot of the
 //! tick-granularity baton: shared state written and read between two adjacent ticks.
-//! Only Miri's own "Data race detected" verdict with a string_calculator frame counts; results are
-//! never compared under Miri (it perturbs float intrinsics on purpose).
+//! Two verdicts count: Miri's own "Data race detected" with a string_calculator frame, and a MISMATCH
+//! line of the scenario (a call evaluated concurrently differs from the same call evaluated
+//! sequentially in the same Miri process). The pass runs with -Zmiri-deterministic-floats: without it
+//! Miri perturbs float intrinsics at random and equal calls legitimately differ.
 
 use crate::gen::Pool;
 use crate::types::*;
@@ -19,6 +21,7 @@ pub struct MiriOutcome {
     pub calls: usize,
     pub failing_seeds: Vec<u64>,
     pub data_race: bool,
+    pub mismatch: bool,
     pub other_error: bool,
     pub excerpt: String,
     pub wall_s: f64,
@@ -29,7 +32,7 @@ impl MiriOutcome {
     pub fn to_json(&self) -> Value {
         json!({
             "ran": self.ran, "reason": self.reason, "miri_seeds": self.seeds, "threads": self.threads, "calls_per_thread": self.calls,
-            "failing_seeds": self.failing_seeds, "data_race_reported": self.data_race, "other_miri_error": self.other_error,
+            "failing_seeds": self.failing_seeds, "data_race_reported": self.data_race, "result_mismatch_reported": self.mismatch, "other_miri_error": self.other_error,
             "excerpt": self.excerpt, "wall_s": (self.wall_s * 10.0).round() / 10.0,
         })
     }
@@ -48,24 +51,28 @@ fn ph_field(ph: &Ph) -> (&'static str, String) {
 
 /// A small workload for Miri: cheap calls from the pool, all five evaluators, Ok / Err / panicking ones.
 pub fn miri_calls(pool: &Pool, seed: u64, n: usize) -> String {
+    // n/5 cheap calls per evaluator, most of them containing `@`; the calls of one evaluator are adjacent in
+    // the list, and the scenario's threads walk the list in the same order, so that at any moment several
+    // threads are inside the same evaluator (often the same expression) with different progress
     let mut r = Rng::new(mix(seed, 0x6d69_7269));
     let mut out = String::new();
-    let mut count = 0;
-    let mut guard = 0;
-    let mut per_ev = [0usize; 5];
-    while count < n && guard < n * 200 {
-        guard += 1;
-        let e = &pool.entries[r.below(pool.entries.len())];
-        if e.ticks > 120 || e.call.expr.contains('\t') || e.call.expr.contains('\n') || e.call.expr.contains('\r') {
-            continue;
+    let per = (n / 5).max(1);
+    for ev in ALL_EV {
+        let mut count = 0;
+        let mut guard = 0;
+        while count < per && guard < per * 400 {
+            guard += 1;
+            let e = &pool.entries[r.below(pool.entries.len())];
+            if e.call.ev != ev || e.ticks > 120 || e.call.expr.contains('\t') || e.call.expr.contains('\n') || e.call.expr.contains('\r') {
+                continue;
+            }
+            if !e.call.expr.contains('@') && r.chance(0.7) {
+                continue;
+            }
+            let (evn, ph) = ph_field(&e.call.ph);
+            out.push_str(&format!("{}\t{}\t{}\n", evn, ph, e.call.expr));
+            count += 1;
         }
-        if per_ev[e.call.ev as usize] > n / 5 {
-            continue;
-        }
-        per_ev[e.call.ev as usize] += 1;
-        let (ev, ph) = ph_field(&e.call.ph);
-        out.push_str(&format!("{}\t{}\t{}\n", ev, ph, e.call.expr));
-        count += 1;
     }
     out
 }
@@ -131,6 +138,7 @@ pub fn run_miri(verif: &str, calls_text: &str, threads: usize, seeds: &str, time
         calls: ncalls,
         failing_seeds: Vec::new(),
         data_race: false,
+        mismatch: false,
         other_error: false,
         excerpt: String::new(),
         wall_s: 0.0,
@@ -154,7 +162,7 @@ pub fn run_miri(verif: &str, calls_text: &str, threads: usize, seeds: &str, time
         .arg("--")
         .arg(&file)
         .arg(threads.to_string())
-        .env("MIRIFLAGS", format!("-Zmiri-disable-isolation -Zmiri-preemption-rate=0.1 {}", seeds))
+        .env("MIRIFLAGS", format!("-Zmiri-disable-isolation -Zmiri-deterministic-floats -Zmiri-preemption-rate=0.1 {}", seeds))
         .env("CARGO_NET_OFFLINE", "true")
         .current_dir(format!("{}/miri_scn", verif));
     let res = run_with_timeout(cmd, timeout);
@@ -180,16 +188,24 @@ pub fn run_miri(verif: &str, calls_text: &str, threads: usize, seeds: &str, time
         }
     }
     mo.failing_seeds.sort();
-    let has_error = out.contains("error: Undefined Behavior") || out.contains("Data race detected") || !mo.failing_seeds.is_empty();
+    let mismatch_lines: Vec<&str> = out.lines().filter(|l| l.starts_with("MISMATCH ")).collect();
+    let has_error = out.contains("error: Undefined Behavior") || out.contains("Data race detected") || !mo.failing_seeds.is_empty() || !mismatch_lines.is_empty();
     if done == 0 && !has_error {
         mo.reason = format!("Miri did not run the scenario (exit code {}): {}", code, excerpt_of(&out).chars().take(400).collect::<String>());
         return mo;
     }
     mo.ran = true;
-    mo.seeds = done + mo.failing_seeds.len().max(if has_error && done == 0 { 1 } else { 0 });
+    // seeds that ended in a mismatch still print their "done" line; seeds stopped by a Miri error do not
+    let done_with_mismatch = out.lines().filter(|l| l.starts_with("miri scenario done") && !l.trim_end().ends_with(" 0 mismatches")).count();
+    mo.seeds = done + mo.failing_seeds.len().saturating_sub(done_with_mismatch);
     if out.contains("Data race detected") && out.contains("string_calculator::") {
         mo.data_race = true;
         mo.excerpt = excerpt_of(&out);
+    } else if !mismatch_lines.is_empty() {
+        // a call evaluated while other threads were evaluating gave a different outcome than the same call
+        // evaluated sequentially in the same process (floats are deterministic under -Zmiri-deterministic-floats)
+        mo.mismatch = true;
+        mo.excerpt = mismatch_lines.iter().take(4).map(|l| l.chars().take(400).collect::<String>()).collect::<Vec<_>>().join("\n");
     } else if has_error {
         mo.other_error = true;
         mo.excerpt = excerpt_of(&out);
